@@ -57,7 +57,7 @@ class C27(Scenario):
                         u["op"] = ["fault", "stack", int(10 ** rng.uniform(0.5, 2.5)), op]
                     else:
                         n = int(10 ** rng.uniform(0, 5.3))
-                        u["op"] = ["fault", "interrupt", {"n": n, "defer": arm != "untorn-off"}, op]
+                        u["op"] = ["fault", rng.choice(["interrupt", "interrupt", "memerr"]), {"n": n, "defer": arm != "untorn-off"}, op]
                 units.append(u)
             else:
                 units.append({"k": "setup", "n": 0, "op": op})
@@ -98,7 +98,7 @@ class C27(Scenario):
         units = plan["units"]
         model = {}
         viols = []
-        faults = {"interrupt": {"configured": 0, "fired": 0}, "stack": {"configured": 0, "fired": 0}, "abort": {"configured": 0, "fired": 0}}
+        faults = {"interrupt": {"configured": 0, "fired": 0}, "memerr": {"configured": 0, "fired": 0}, "stack": {"configured": 0, "fired": 0}, "abort": {"configured": 0, "fired": 0}}
         probes = {
             "snapshots_compared": 0,
             "objects_tracked": 0,
@@ -215,14 +215,14 @@ class C27(Scenario):
                 q["units"] = units[:i] + [dict(u, op=u["op"][3])] + units[i + 1 :]
                 yield q
         for i, u in enumerate(units):
-            if u["op"][0] == "fault" and u["op"][1] == "interrupt":
+            if u["op"][0] == "fault" and u["op"][1] in ("interrupt", "memerr"):
                 p = u["op"][2]
                 n = p["n"] if isinstance(p, dict) else p
                 for n2 in (n // 2, n - 1):
                     if 0 < n2 < n:
                         q = dict(plan)
                         p2 = dict(p, n=n2) if isinstance(p, dict) else n2
-                        q["units"] = units[:i] + [dict(u, op=["fault", "interrupt", p2, u["op"][3]])] + units[i + 1 :]
+                        q["units"] = units[:i] + [dict(u, op=["fault", u["op"][1], p2, u["op"][3]])] + units[i + 1 :]
                         yield q
         yield from bypass_candidates(plan)
 
